@@ -744,10 +744,12 @@ class C03(Check):
         "I5": "no method other than the cache builder writes into the memoised cache's containers: a name bound to a cache field is an "
               "alias (level 0), a shallow copy (.copy(), dict(..), list(..)) still shares the inner containers (level 1); a store or mutating "
               "call that reaches shared storage changes what every later query answers",
+        "I6": "every value argument of a mutator (add_*, update_*, remove_*, scale_*, make_*) reaches an effect - a store, a call, an iteration - and "
+              "is not merely tested: an argument that is only looked at means that part of the requested edit is silently not made",
         "I4": "no public query hands out the memoised cache's own mutable containers (a caller editing the result would edit the "
               "cache and change later answers); copies, fresh comprehensions and scalars are fine",
     }
-    floors = {"I1": 25, "I2": 25, "I3": 25, "I4": 8, "I5": 10}
+    floors = {"I1": 25, "I2": 25, "I3": 25, "I4": 8, "I5": 10, "I6": 25}
     decided = [
         "every public mutator resets / rebuilds the memoised cache on every path that changes content",
         "a rejected single edit has written nothing before the rejection",
@@ -762,6 +764,84 @@ class C03(Check):
         "constructors of the component dataclasses and logging calls do not raise",
         "errors of the cache builder itself (sorting / arity) are not edit rejections",
     ]
+
+    def i3_outputs(self, m) -> None:
+        """The outputs of a surrogate live in the one name space too: they are registered when the surrogate is stored and released when it
+        is removed or replaced (the interpreter assumes this invariant at method entry; here it is established)."""
+        def loops(fn, call):
+            out = []
+            for l in ast.walk(fn):
+                if isinstance(l, ast.For) and norm(l.iter).endswith(".outputs") and isinstance(l.target, ast.Name):
+                    if any(isinstance(c, ast.Call) and norm(c.func) == f"self.{call}" and any(norm(k.value) == l.target.id for k in c.keywords) | any(norm(a) == l.target.id for a in c.args)
+                           for c in ast.walk(l)):
+                        out.append(l)
+            return out
+
+        want = {"add_surrogate": ("_insert_id",), "remove_surrogate": ("_remove_id",), "update_surrogate": ("_remove_id", "_insert_id")}
+        for name, calls in want.items():
+            if name not in m.methods:
+                raise AnalysisError(f"Model.{name} missing")
+            fn = m.methods[name]
+            q = f"{CLS}.{name}"
+            for call in calls:
+                ls = loops(fn, call)
+                cons = f"outputs-{'registered' if call == '_insert_id' else 'released'}"
+                if ls:
+                    self.holds("I3", MOD, q, cons, ls[0], f"every output goes through self.{call}")
+                else:
+                    self.violated("I3", MOD, q, cons, fn, f"the surrogate's outputs are not passed to self.{call} one by one: " +
+                                  ("an output name can be reused by another component, which then shadows the surrogate's value" if call == "_insert_id"
+                                   else "the names stay taken after the surrogate is gone (or replaced by one with other outputs)"),
+                                  witness="add_surrogate(s with outputs ['y']); add_parameter('y', 1.0) succeeds" if call == "_insert_id"
+                                  else "remove_surrogate('s'); add_parameter('y', 1.0) raises although nothing is called y any more")
+
+    def i6(self, m, public) -> None:
+        """Every argument of a mutator reaches an effect - a store, a call, an iteration - and is not merely tested.  An argument that is
+        only looked at (`if unit is not None:` with the assignment gone) means that part of the requested edit is silently not made."""
+        for name in sorted(n_ for n_ in m.methods if not n_.startswith("_") and n_.startswith(("add_", "update_", "remove_", "scale_", "make_"))):
+            fn = m.methods[name]
+            if any(dotted(d) in ("property", "overload") for d in fn.decorator_list):
+                continue
+            q = f"{CLS}.{name}"
+            parents = {}
+            for n in ast.walk(fn):
+                for c in ast.iter_child_nodes(n):
+                    parents[id(c)] = n
+            pos = fn.args.args[1:]
+            defaults = dict(zip([a.arg for a in pos[len(pos) - len(fn.args.defaults):]], fn.args.defaults))
+            defaults.update({a.arg: d for a, d in zip(fn.args.kwonlyargs, fn.args.kw_defaults) if d is not None})
+            ignored = []
+            n_args = 0
+            for a in pos + fn.args.kwonlyargs:
+                p = a.arg
+                d = defaults.get(p)
+                if (isinstance(d, ast.Constant) and isinstance(d.value, bool)) or (a.annotation is not None and norm(a.annotation) == "bool"):
+                    continue  # a switch is meant to be tested only
+                n_args += 1
+                effect = False
+                for x in ast.walk(fn):
+                    if not (isinstance(x, ast.Name) and x.id == p and isinstance(x.ctx, ast.Load)):
+                        continue
+                    cur = x
+                    tested_only = False
+                    while id(cur) in parents:
+                        par = parents[id(cur)]
+                        if isinstance(par, ast.NamedExpr) and par.value is cur:
+                            break
+                        if (isinstance(par, (ast.If, ast.IfExp, ast.While)) and par.test is cur) or isinstance(par, ast.Assert):
+                            tested_only = True
+                            break
+                        cur = par
+                    if not tested_only:
+                        effect = True
+                        break
+                if not effect:
+                    ignored.append(p)
+            if ignored:
+                self.violated("I6", MOD, q, "arguments-take-effect", fn, f"the argument(s) {ignored} are at most tested, never stored, passed on or iterated: that part of the edit is not made",
+                              witness=f"m.{name}(..., {ignored[0]}=<new value>) leaves the model's {ignored[0]} as it was; a freshly built model with the requested content answers differently")
+            else:
+                self.holds("I6", MOD, q, "arguments-take-effect", fn, f"all {n_args} value arguments reach a store, a call or an iteration")
 
     def run(self) -> None:
         m = Machine(self)
@@ -779,6 +859,8 @@ class C03(Check):
             and not any(dotted(d) == "property" for d in m.methods[n].decorator_list)
         ]
         self.analysed["public_mutators"] = public
+        self.i6(m, public)
+        self.i3_outputs(m)
         for name in public:
             fn = m.methods[name]
             m.top = name
